@@ -186,8 +186,13 @@ class G:
         return ("sprobe", self.tag("S"))
 
     def func(self):
-        name = self.rng.choice(["f", "my_fn", "do-it", "_g", "fn2", "a-b_c"]) + str(len(self.funcnames))
-        self.funcnames.append(name)
+        if self.funcnames and self.rng.random() < 0.3:
+            # a name that is defined already gets a new body (in the same file or through a sourced one):
+            # calls made afterwards run the latest definition
+            name = self.rng.choice(self.funcnames)
+        else:
+            name = self.rng.choice(["f", "my_fn", "do-it", "_g", "fn2", "a-b_c"]) + str(len(self.funcnames))
+            self.funcnames.append(name)
         body = [self.simple() for _ in range(self.rng.randint(1, 4))]
         return ("deffunc", name, self.rng.random() < 0.5, body)
 
